@@ -107,6 +107,7 @@ func evalShared(c SharedCase) lib.Outcome {
 	var bad string
 	total := 0
 	consumerDone := make(chan struct{})
+	var idle int32 // 1 while the consumer waits for a line (all its pauses for the current position are over)
 	go func() {
 		defer close(consumerDone)
 		taken := 0
@@ -119,8 +120,10 @@ func evalShared(c SharedCase) lib.Outcome {
 					}
 				}
 			}
+			atomic.StoreInt32(&idle, 1)
 			select {
 			case l := <-lines:
+				atomic.StoreInt32(&idle, 0)
 				content := l.Content.String()
 				src := l.SourceID
 				perc := l.TransmittedPerc
@@ -205,15 +208,13 @@ func evalShared(c SharedCase) lib.Outcome {
 		time.Sleep(time.Duration(r.DelayMs) * time.Millisecond)
 	}
 	// quiescence, then one sentinel line per file while the consumer is idle: these cannot be dropped
-	lastN, since := -1, time.Now()
-	for time.Since(since) < 600*time.Millisecond {
-		mu.Lock()
-		n := total
-		mu.Unlock()
-		if n != lastN {
-			lastN, since = n, time.Now()
+	// (the consumer must really be waiting for a line, not sitting in one of its pauses, and the queue must be empty)
+	since := time.Now()
+	for time.Since(since) < 300*time.Millisecond {
+		if atomic.LoadInt32(&idle) != 1 || len(lines) != 0 {
+			since = time.Now()
 		}
-		time.Sleep(5 * time.Millisecond)
+		time.Sleep(2 * time.Millisecond)
 	}
 	sentinels := make([]int, c.Files)
 	for f := 0; f < c.Files; f++ {
